@@ -35,6 +35,8 @@ pub mod parse;
 #[cfg(not(fuzzing))]
 mod parse;
 mod router;
+#[cfg(erbium_verif)]
+pub use outquery::verif as verif_outquery;
 
 use bytes::BytesMut;
 use tokio_util::codec::Decoder;
